@@ -80,7 +80,10 @@ func parsePipeExpr(expr string) pipeExpr {
 	// Check if this is a complex expression (contains operators like ||, &&, etc.)
 	// before trying to split on pipe character
 	trimmed := strings.TrimSpace(expr)
-	if helpers.IsComplexExpr(trimmed) {
+	// Operators and pipe characters inside quoted strings are text, not syntax:
+	// they are looked for in a copy whose quoted parts are blanked out.
+	masked := maskQuoted(expr)
+	if helpers.IsComplexExpr(strings.TrimSpace(masked)) {
 		return pipeExpr{
 			initial: "",
 			segments: []pipeSegment{{
@@ -90,7 +93,7 @@ func parsePipeExpr(expr string) pipeExpr {
 		}
 	}
 
-	if !strings.Contains(expr, "|") {
+	if !strings.Contains(masked, "|") {
 		// Check if it's a function call (including no-arg functions like "fn()")
 		if matches := filterRe.FindStringSubmatch(trimmed); matches != nil && matches[1] != "" {
 			return pipeExpr{
@@ -107,7 +110,16 @@ func parsePipeExpr(expr string) pipeExpr {
 		return pipeExpr{initial: trimmed}
 	}
 
-	parts := strings.Split(expr, "|")
+	// Split at the pipe characters that are outside quotes
+	var parts []string
+	last := 0
+	for i := 0; i < len(masked); i++ {
+		if masked[i] == '|' {
+			parts = append(parts, expr[last:i])
+			last = i + 1
+		}
+	}
+	parts = append(parts, expr[last:])
 	firstPart := strings.TrimSpace(parts[0])
 
 	result := pipeExpr{
@@ -125,8 +137,8 @@ func parsePipeExpr(expr string) pipeExpr {
 
 // classifySegment determines if a pipe segment is a filter call or expression
 func classifySegment(part string) pipeSegment {
-	// Check for complex expression operators first
-	if helpers.IsComplexExpr(part) {
+	// Check for complex expression operators first (outside quoted strings)
+	if helpers.IsComplexExpr(maskQuoted(part)) {
 		return pipeSegment{
 			typ:  segmentExpr,
 			expr: part,
@@ -157,6 +169,26 @@ func classifySegment(part string) pipeSegment {
 	}
 }
 
+// maskQuoted returns s with the content of quoted strings (and the quotes)
+// replaced by underscores, same length, so that positions still match.
+func maskQuoted(s string) string {
+	b := []byte(s)
+	var quote byte
+	for i := 0; i < len(b); i++ {
+		switch {
+		case quote == 0 && (b[i] == '"' || b[i] == '\''):
+			quote = b[i]
+			b[i] = '_'
+		case quote != 0 && b[i] == quote:
+			quote = 0
+			b[i] = '_'
+		case quote != 0:
+			b[i] = '_'
+		}
+	}
+	return string(b)
+}
+
 // parseArgs parses comma-separated arguments, handling quoted strings
 func parseArgs(argStr string) []string {
 	var args []string
@@ -166,12 +198,16 @@ func parseArgs(argStr string) []string {
 
 	for _, ch := range strings.TrimSpace(argStr) {
 		switch {
+		// Quotes stay part of the argument text: resolveArgument uses them to
+		// tell the string 'name' from the variable name, and '' is an argument.
 		case (ch == '"' || ch == '\'') && !inQuote:
 			inQuote = true
 			quoteChar = ch
+			current.WriteRune(ch)
 		case ch == quoteChar && inQuote:
 			inQuote = false
 			quoteChar = 0
+			current.WriteRune(ch)
 		case ch == ',' && !inQuote:
 			if current.Len() > 0 {
 				args = append(args, strings.TrimSpace(current.String()))
@@ -327,8 +363,10 @@ func (v *Vue) resolveArgument(ctx VueContext, arg string) any {
 	}
 
 	// Try to parse as bool
-	if b, err := strconv.ParseBool(arg); err == nil {
-		return b
+	// Only the literals true and false (ParseBool would also take t, f, T, F,
+	// 1, 0 and so turn a variable named t into a boolean).
+	if arg == "true" || arg == "false" {
+		return arg == "true"
 	}
 
 	// Try to resolve as variable
